@@ -158,4 +158,40 @@ theorem lexLE_iff_valLE {spec : Format} {m₁ m₂ : Nat} {e₁ e₂ : Int}
       have : m₁ ≤ m₁ * 2 ^ d := Nat.le_mul_of_pos_right _ (Nat.two_pow_pos d)
       omega
 
+/-! ### `UnpackedFloat.le` on canonical finite floats of equal sign is the exact value order -/
+
+theorem le_fin_pos_iff {e₁ e₂ : Int} {m₁ m₂ : Nat} (h₁ : 0 < m₁) (h₂ : 0 < m₂) :
+    (UnpackedFloat.finite .positive m₁ e₁ h₁).le (.finite .positive m₂ e₂ h₂) = true ↔ LexLE e₁ m₁ e₂ m₂ := by
+  refine ⟨fun h => ?_, fun h => le_fin_pos h h₁ h₂⟩
+  unfold UnpackedFloat.le UnpackedFloat.compare at h
+  rcases Int.lt_trichotomy e₁ e₂ with hlt | heq | hgt
+  · exact Or.inl hlt
+  · subst heq
+    simp at h
+    exact Or.inr ⟨rfl, Nat.isLE_compare.mp h⟩
+  · simp [Int.compare_eq_gt.mpr hgt] at h
+
+theorem le_fin_neg_iff {e₁ e₂ : Int} {m₁ m₂ : Nat} (h₁ : 0 < m₁) (h₂ : 0 < m₂) :
+    (UnpackedFloat.finite .negative m₁ e₁ h₁).le (.finite .negative m₂ e₂ h₂) = true ↔ LexLE e₂ m₂ e₁ m₁ := by
+  refine ⟨fun h => ?_, fun h => le_fin_neg h h₁ h₂⟩
+  unfold UnpackedFloat.le UnpackedFloat.compare at h
+  rcases Int.lt_trichotomy e₁ e₂ with hlt | heq | hgt
+  · simp [Int.compare_eq_lt.mpr hlt] at h
+  · subst heq
+    simp at h
+    exact Or.inr ⟨rfl, Nat.isGE_compare.mp h⟩
+  · exact Or.inl hgt
+
+/-- **`compare` is the exact value order** on canonical positive finite floats. -/
+theorem le_fin_pos_iff_valLE {spec : Format} {e₁ e₂ : Int} {m₁ m₂ : Nat} (h₁ : 0 < m₁) (h₂ : 0 < m₂)
+    (hc₁ : CanonFin spec m₁ e₁) (hc₂ : CanonFin spec m₂ e₂) :
+    (UnpackedFloat.finite .positive m₁ e₁ h₁).le (.finite .positive m₂ e₂ h₂) = true ↔ ValLE m₁ e₁ m₂ e₂ :=
+  (le_fin_pos_iff h₁ h₂).trans (lexLE_iff_valLE hc₁ hc₂)
+
+/-- ... and the reversed value order on canonical negative finite floats. -/
+theorem le_fin_neg_iff_valLE {spec : Format} {e₁ e₂ : Int} {m₁ m₂ : Nat} (h₁ : 0 < m₁) (h₂ : 0 < m₂)
+    (hc₁ : CanonFin spec m₁ e₁) (hc₂ : CanonFin spec m₂ e₂) :
+    (UnpackedFloat.finite .negative m₁ e₁ h₁).le (.finite .negative m₂ e₂ h₂) = true ↔ ValLE m₂ e₂ m₁ e₁ :=
+  (le_fin_neg_iff h₁ h₂).trans (lexLE_iff_valLE hc₂ hc₁)
+
 end Rosu.FMR
